@@ -36,7 +36,7 @@ func init() {
 		MinDistinct:     floor(15000, 200000),
 		RequiredCells: func(string) []string {
 			return []string{"purity/encrypted-meta/history", "purity/encrypted-meta/concurrent", "roundtrip/constructed", "roundtrip/dagcbor", "roundtrip/dagjson", "roundtrip/delegation", "roundtrip/invocation", "roundtrip/string", "roundtrip/bytes",
-				"tamper/bitflip-nonce", "tamper/bitflip-mac", "tamper/bitflip-body", "tamper/truncate", "wrong-key", "plaintext-absent", "fresh-nonce", "entropy-fault", "never-encrypted", "badkey/derived-from-right-key", "badkey/nil", "badkey/size", "badkey/zero", "len=0", "len=1024"}
+				"tamper/bitflip-nonce", "tamper/bitflip-mac", "tamper/bitflip-body", "tamper/truncate", "wrong-key", "wrong-key/related", "plaintext-absent", "fresh-nonce", "entropy-fault", "never-encrypted", "badkey/derived-from-right-key", "badkey/nil", "badkey/size", "badkey/zero", "len=0", "len=1024"}
 		},
 	})
 }
@@ -322,6 +322,54 @@ func runC19(w *mon.W) {
 			}
 			if err := meta.NewMeta().AddEncrypted("x", "v", k); err == nil {
 				w.Violate("badkey-accepted/add/derived/"+shape, fmt.Sprintf("AddEncrypted accepted a %d-byte key", len(k)), map[string]any{"offered_key": mon.Hex(k)})
+			}
+		}
+		// valid 32-byte keys RELATED to the right one: every single-bit difference (256), every
+		// single-byte difference, keys sharing a prefix / a suffix of every length with it, the
+		// key reversed, rotated by one byte: each is a different key and may not decrypt - also
+		// after the value went through seal / unseal
+		var related [][]byte
+		for bit := 0; bit < 256; bit++ {
+			k := append([]byte{}, key...)
+			k[bit/8] ^= 1 << (bit % 8)
+			related = append(related, k)
+		}
+		for n := 0; n < 32; n++ {
+			k := append([]byte{}, key...)
+			k[n] ^= 0xa5
+			related = append(related, k)
+			// same first n bytes, the rest different; same last n bytes, the rest different
+			p := append([]byte{}, key...)
+			q := append([]byte{}, key...)
+			for i := n; i < 32; i++ {
+				p[i] ^= byte(0x11 + i)
+			}
+			for i := 0; i < 32-n; i++ {
+				q[i] ^= byte(0x11 + i)
+			}
+			related = append(related, p, q)
+		}
+		rev := make([]byte, 32)
+		for i := range rev {
+			rev[i] = key[31-i]
+		}
+		related = append(related, rev, append(append([]byte{}, key[1:]...), key[0]))
+		for _, k := range related {
+			if bytes.Equal(k, key) {
+				continue
+			}
+			got, err := m.GetEncryptedBytes("secret", k)
+			w.Eval(1)
+			w.Cover("wrong-key/related")
+			w.Distinct("related-key", shape, mon.Hex(k))
+			if err == nil {
+				diff := 0
+				for i := range k {
+					if k[i] != key[i] {
+						diff++
+					}
+				}
+				w.Violate("wrong-key-accepted/related/"+shape, fmt.Sprintf("a different valid key (%d of 32 bytes differ from the right one) decrypts the value (%d bytes returned)", diff, len(got)), map[string]any{"right_key": mon.Hex(key), "offered_key": mon.Hex(k)})
 			}
 		}
 	}
